@@ -317,7 +317,7 @@ def norm_body(b):
 
 
 def shards(tier, seed):
-    n = 25 if tier == 'quick' else 900
+    n = 25 if tier == 'quick' else 3600
     return [{'n': n} for _ in range(16)]
 
 
